@@ -193,6 +193,11 @@ def values_for(fam, ctx, rng, cap_bits):
         while len(subsets) < ctx.pick(3000, 60000):
             subsets.add(rng.getrandbits(len(bits)))
         subsets = sorted(subsets)
+    # boundary words: exactly the highest declared bit, everything set, bits above 31 only, the word just above / below
+    top = 1 << (fam.all_bits.bit_length() - 1) if fam.all_bits else 1
+    for v in (top, top - 1, top << 1, fam.all_bits, (1 << 32) - 1, (1 << 64) - 1, 1 << 32, (1 << 32) | top, 1 << 63,
+              0xffffffff00000000, fam.all_bits | (1 << 40)):
+        yield v, False
     idx = 0
     for sub in subsets:
         base = 0
